@@ -46,7 +46,12 @@ Acts == {[op |-> o, perms |-> ps, copy |-> ""] : o \in {"+", "-", "="}, ps \in P
         \cup {[op |-> o, perms |-> {}, copy |-> c] : o \in {"+", "="}, c \in {"u", "g", "o"}}
 Second == {[op |-> "+", perms |-> {"x"}, copy |-> ""], [op |-> "-", perms |-> {"w"}, copy |-> ""], [op |-> "=", perms |-> {"r"}, copy |-> ""],
            [op |-> "+", perms |-> {}, copy |-> "u"]}
+\* who-less clauses ("=w", "-+x" ...); where the operand itself would begin with '+' (exact form) it is left out - that
+\* spelling once meant something else
+NoWho == {<<[who |-> {}, acts |-> <<a>>]>> : a \in {x \in Acts : x.copy = ""}}
+        \cup {<<[who |-> {"u"}, acts |-> <<[op |-> "=", perms |-> {"r"}, copy |-> ""]>>], [who |-> {}, acts |-> <<a>>]>> : a \in {x \in Acts : x.copy = ""}}
 SymModes ==
+  NoWho \cup
   {<<[who |-> w, acts |-> <<a>>]>> : w \in Whos, a \in Acts}
   \cup {<<[who |-> w, acts |-> <<a, b>>]>> : w \in {{"u"}, {"g", "o"}, {"u", "g", "o"}}, a \in Acts, b \in Second}
   \cup {<<[who |-> {"u"}, acts |-> <<[op |-> "=", perms |-> {"r", "w", "x"}, copy |-> ""]>>], [who |-> w, acts |-> <<a>>]>> : w \in Whos, a \in Acts}
@@ -59,7 +64,10 @@ Next ==
   /\ IF FLAVOUR = "tree" THEN cfgmode' \in {"P", "H", "L"} /\ roots' \in Roots /\ test' \in TreeTests /\ sym' = <<>>
      ELSE IF FLAVOUR = "perm"
      THEN UNCHANGED <<cfgmode, roots>> /\ sym' = <<>> /\ \E k \in {"exact", "all", "any"}, m \in PermOperands : test' = [p |-> "perm", kind |-> k, m |-> m]
-     ELSE UNCHANGED <<cfgmode, roots>> /\ sym' \in SymModes /\ \E k \in {"exact", "all", "any"} : test' = [p |-> "perm", kind |-> k, m |-> SymbolicValue(sym')]
+     ELSE UNCHANGED <<cfgmode, roots>> /\ sym' \in SymModes
+          /\ \E k \in {"exact", "all", "any"} :
+                /\ ~(k = "exact" /\ sym'[1].who = {} /\ sym'[1].acts[1].op # "=")
+                /\ test' = [p |-> "perm", kind |-> k, m |-> SymbolicValue(sym')]
 Spec == Init /\ [][Next]_vars
 
 cfg == [mode |-> cfgmode, min |-> 0, max |-> NoMax, depth |-> FALSE, sorted |-> TRUE, prune |-> {}]
